@@ -77,6 +77,23 @@ show_of (value const &v)
 
 static void dump_value (std::ostream &os, value const &v);
 
+// Does the DIE live in a Dwarf that is not the main Dwarf of any module (the dwz alt file)?
+static bool
+die_in_alt (value_die const &d)
+{
+  struct ctx { Dwarf *dw; bool main; } c {dwarf_cu_getdwarf (const_cast <value_die &> (d).get_die ().cu), false};
+  dwfl_getmodules (const_cast <value_die &> (d).get_dwctx ()->get_dwfl (),
+		   [] (Dwfl_Module *mod, void **, const char *, Dwarf_Addr, void *arg) -> int
+		   {
+		     auto *cp = static_cast <ctx *> (arg);
+		     Dwarf_Addr bias;
+		     if (dwfl_module_getdwarf (mod, &bias) == cp->dw)
+		       cp->main = true;
+		     return DWARF_CB_OK;
+		   }, &c, 0);
+  return ! c.main;
+}
+
 static void
 dump_die_chain (std::ostream &os, value_die const &d)
 {
@@ -133,6 +150,7 @@ dump_value (std::ostream &os, value const &v)
       os << "\"t\":\"die\",\"off\":" << dwarf_dieoffset (&dd)
 	 << ",\"tag\":" << dwarf_tag (&dd)
 	 << ",\"raw\":" << (d->is_raw () ? "true" : "false")
+	 << ",\"alt\":" << (die_in_alt (*d) ? "true" : "false")
 	 << ",\"imp\":";
       dump_die_chain (os, *d);
     }
